@@ -10,6 +10,8 @@ from worlds import GenomeWorld
 import dbutil
 
 PROPS = ('GambitV.Props.C08', 'GambitV.C08')
+# sanity lemmas of the text / path built-ins the translated get_sequence_files / read_lines rest on
+PROPS_EXTRA = [('GambitV.Lemmas.PyText', 'GambitV.Py')]
 TIE = [('GambitV.Tie.PyLabels', 'GambitV.Tie.Py'), ('GambitV.Tie.PyCalcFiles', 'GambitV.Tie.Py'), ('GambitV.Tie.PyCalcFile', 'GambitV.Tie.Py'), ('GambitV.Tie.PySeqFiles', 'GambitV.Tie.Py'), ('GambitV.Tie.PyIoFlow', 'GambitV.Tie.Py'), ('GambitV.Tie.PyQueryParse', 'GambitV.Tie.Py'), ('GambitV.Tie.PySigClasses', 'GambitV.Tie.Py')]
 RULE = ('(batch of query genomes, order, input channel in {positional, list file + --ldir, pre-computed signature file}, gzip twin or not, output format in '
         '{csv, json, archive}, progress on/off, -c in {none,1,2,4}); plus library-level query() with reference chunk sizes 1..n+1. For every genome the row the real '
